@@ -256,14 +256,6 @@ def _f_eoo(failure):
     return any(fz.explicit_over_nonindef_prim(Tin, v) for v in case['inner_values'])
 
 
-def _f_same_tag(failure):
-    """F12: a typed inner value whose outermost tag equals the tag of the tagged ANY field is taken for an already
-    wrapped ANY (isSameTypeWith compares tags only) and is written without the field's tag."""
-    case = fz.case_of(failure)
-    if case['field'] not in ('any-implicit', 'any-explicit', 'seqof-any-explicit'):
-        return False
-    stack, _hb = ir.tag_stack(case['inner_type'])
-    return bool(stack) and stack[0] == ('C', 3)
 
 
-FINDINGS = {'F01-stray-eoo': _f_eoo, 'F12-opentype-same-tag': _f_same_tag}
+FINDINGS = {'F01-stray-eoo': _f_eoo}
